@@ -156,6 +156,7 @@ func realState(c cache.Cache) (order []int, problems []string) {
 			order = append(order, -2)
 		}
 	}
+	sort.Strings(pr) // the hook walks a map: keep the observation deterministic
 	return order, pr
 }
 
